@@ -625,6 +625,8 @@ fn hand_progs(ext: &'static str) -> Vec<Prog> {
         ("rec19", "{% set l = [p,p,p,p,p,p,p,p,p,p,p,p,p,p,p,p,p,p,p] %}{{<Rec xs={l} />}}<L9 \"'>{{ p }}".into(), vec![rec.clone()]),
         ("rec25", "{% set l = [p,p,p,p,p,p,p,p,p,p,p,p,p,p,p,p,p,p,p,p,p,p,p,p,p] %}{{<Rec xs={l} />}}<L9 \"'>{{ p }}".into(), vec![rec.clone()]),
         ("nested-body", "{% <Wrap a={p}> %}<L3 \"'>{{ p }}{% <Wrap> %}{{ pn.a.b }}{% </Wrap> %}{% </Wrap> %}<L9 \"'>{{ p }}".into(), vec![wrap.clone()]),
+        ("single-expr-body", "{% <Wrap> %}{{ p }}{% </Wrap> %}|{% <Wrap a={p}> %}{{ pn.a.b }}{% </Wrap> %}<L9 \"'>{{ p }}".into(), vec![wrap.clone()]),
+        ("forward-body", "{% <Fwd> %}{{ p }}x{% </Fwd> %}<L9 \"'>{{ p }}".into(), vec![wrap.clone(), CompDef { name: "Fwd".into(), params: vec![], rest: None, body: "{% <Wrap> %}{{ body }}{% </Wrap> %}".into(), a_kind: K::S, uses_body: true }]),
         ("filter-double", "{% filter escape_html %}{{ p }}{% endfilter %}<L9 \"'>{{ p }}".into(), vec![]),
         ("map-keys", "{% for k, v in pm %}{{ k }}{{ v }}{% endfor %}{{ pm }}<L9 \"'>{{ p }}".into(), vec![]),
         ("dump", "{% set q = p %}{% for i in ps %}{{ __tera_context }}{% endfor %}<L9 \"'>{{ p }}".into(), vec![]),
@@ -791,6 +793,12 @@ fn main() {
     // ---- programs
     let n_gen = if thorough { 9000 } else { 460 };
     let mut progs: Vec<(Prog, u8)> = Vec::new(); // (program, suffix mode)
+    // hand-written programs first: they are always run on the model as well
+    for ext in [".html", ".txt"] {
+        for p in hand_progs(ext) {
+            progs.push((p, 0));
+        }
+    }
     for k in 0..n_gen {
         let (ext, mode): (&'static str, u8) = match k % 5 {
             0 | 1 => (".html", 0),
@@ -801,11 +809,6 @@ fn main() {
         // `safe` only in a separate stream (the oracle changes)
         let allow_safe = k % 7 == 6;
         progs.push((gen_prog(&mut rng, k, ext, allow_safe), mode));
-    }
-    for ext in [".html", ".txt"] {
-        for p in hand_progs(ext) {
-            progs.push((p, 0));
-        }
     }
     let mut sweep_total = 0usize;
     let mut sweep_ok = 0usize;
@@ -917,7 +920,7 @@ fn main() {
                 }
                 // ---- model side
                 let strict = ae_on && !p.uses_safe && !p.lit_special && !user_safe;
-                if su.in_subset && model_budget > 0 && (rng.chance(1, if thorough { 12 } else { 5 }) || (strict && rng.chance(1, 2)) || !p.label.starts_with("gen#") && rng.chance(1, 3)) {
+                if su.in_subset && model_budget > 0 && (rng.chance(1, if thorough { 12 } else { 5 }) || (strict && rng.chance(1, 2)) || p.label.starts_with("hand:") || p.label.starts_with("sweep:") && rng.chance(1, 3)) {
                     model_budget -= 1;
                     let g = format!(
                         "{{| k_templates := {}; k_components := {}; k_entry := {}; k_mode := MRender {}; k_ctx := {}; k_safe := {}; k_strict := {}; k_impl := {} |}}",
